@@ -255,9 +255,11 @@ NAV_STAGES = {
                          ("lookup-raw", _nav(4, 3, "ValsInt1", "NamesAB", "LookAB", "OpsAll", "RootsOA"))]},
     "C10": {"quick":    [("transcribe-structure", _nav(5, 4, "ValsInt1", "NamesAB", "LookAB", "OpsTrans", "RootsOA", 10)),
                          ("transcribe-values", _nav(2, 3, "ValsAll", "NamesRich", "LookAB", "OpsTrans", "RootsOA", 10)),
-                         ("transcribe-mixed", _nav(4, 3, "ValsMix", "NamesAB", "LookAB", "OpsTrans", "RootsOA", 10))],
+                         ("transcribe-mixed", _nav(4, 3, "ValsMix", "NamesAB", "LookAB", "OpsTrans", "RootsOA", 10)),
+                         ("transcribe-reused-parser", _nav(4, 3, "ValsInt1", "NamesAB", "LookAB", "OpsReuseX", "RootsOA"))],
             "thorough": [("transcribe-structure", _nav(7, 5, "ValsInt1", "NamesAB", "LookAB", "OpsTrans", "RootsOA", 10)),
-                         ("transcribe-values", _nav(3, 3, "ValsAll", "NamesRich", "LookAB", "OpsTrans", "RootsOA", 10))]},
+                         ("transcribe-values", _nav(3, 3, "ValsAll", "NamesRich", "LookAB", "OpsTrans", "RootsOA", 10)),
+                         ("transcribe-reused-parser", _nav(5, 3, "ValsInt1", "NamesAB", "LookAB", "OpsReuseX", "RootsOA"))]},
     "C11": {"quick":    [("raw", _nav(4, 3, "ValsInt1", "NamesAB", "LookAB", "OpsNav", "RootsOA")),
                          ("raw-history-2", _nav(3, 3, "ValsInt1", "NamesAB", "LookAB", "OpsNav", "RootsOA", HistK=2))],
             "thorough": [("raw", _nav(6, 4, "ValsInt1", "NamesAB", "LookAB", "OpsNav", "RootsOA")),
@@ -422,14 +424,16 @@ REGISTRY["C05"] = check_writer
 
 
 # ------------------------------------------------------------ C13 / C14 -------
-def _ts(MaxNodes, MaxNest, Vals, DocNames, AllCaps, WithInvalid="TRUE", Roots="RootsOA"):
-    return dict(MaxNodes=MaxNodes, MaxNest=MaxNest, Vals=Vals, DocNames=DocNames, Roots=Roots, AllCaps=AllCaps, WithInvalid=WithInvalid)
+def _ts(MaxNodes, MaxNest, Vals, DocNames, AllCaps, WithInvalid="TRUE", Roots="RootsOA", Pres="Pres0"):
+    return dict(MaxNodes=MaxNodes, MaxNest=MaxNest, Vals=Vals, DocNames=DocNames, Roots=Roots, AllCaps=AllCaps, WithInvalid=WithInvalid, Pres=Pres)
 
 TOSTRING_STAGES = {
     "C13": {"quick":    [("caps-text", _ts(3, 3, "ValsText", "NamesAB", "TRUE")),
-                         ("caps-wide", _ts(1, 2, "ValsWide", "NamesOdd", "TRUE"))],
+                         ("caps-wide", _ts(1, 2, "ValsWide", "NamesOdd", "TRUE")),
+                         ("prior-state", _ts(3, 3, "ValsText", "NamesAB", "FALSE", "TRUE", "RootsOA", "Pres012"))],
             "thorough": [("caps-text", _ts(4, 3, "ValsText", "NamesAB", "TRUE")),
-                         ("caps-wide", _ts(2, 2, "ValsWide", "NamesOdd", "TRUE"))]},
+                         ("caps-wide", _ts(2, 2, "ValsWide", "NamesOdd", "TRUE")),
+                         ("prior-state", _ts(4, 3, "ValsText", "NamesAB", "FALSE", "TRUE", "RootsOA", "Pres012"))]},
     "C14": {"quick":    [("siblings", _ts(5, 4, "ValsOne", "NamesAB", "FALSE", "FALSE")),
                          ("values", _ts(2, 2, "ValsWide", "NamesOdd", "FALSE", "FALSE")),
                          ("text", _ts(3, 3, "ValsText", "NamesAB", "FALSE", "FALSE"))],
@@ -587,7 +591,8 @@ C18_CORPUS = {
 }
 C18_CONFIGS = [("gcc-asan-ubsan", "gcc", "-O1 -g -fsanitize=address,undefined -fsanitize-recover=all")] + \
     [("%s%s%s" % (cc, o, sgn), cc, "%s %s" % (o, sgn)) for cc in ("gcc", "clang") for o in ("-O0", "-O2", "-Os") for sgn in ("-fsigned-char", "-funsigned-char")] + \
-    [("clang-asan-ubsan", "clang", "-O1 -g -fsanitize=address,undefined -fsanitize-recover=all")]
+    [("clang-asan-ubsan", "clang", "-O1 -g -fsanitize=address,undefined -fsanitize-recover=all"),
+     ("clang-msan", "clang", "-O1 -g -fsanitize=memory -fno-omit-frame-pointer")]
 
 
 def gen_corpus(prop, engine, tier):
@@ -608,6 +613,10 @@ def gen_corpus(prop, engine, tier):
                 raise Infra("corpus generation: TLC failed on %s: %s" % (module, tl["error"] or tl["violated"]))
             st_states += tl["distinct"]; st_trans += tl["states"]
             lines = [l[1:-1] for l in r.stdout.splitlines() if l.startswith('"' + prefix)]
+            if module == "MC_Safety.tla":
+                # every second garbage-filled behaviour runs over UNINITIALISED blocks instead (observable results
+                # must not depend on them; the MemorySanitizer build reports any use of an uninitialised value)
+                lines = [("BEH U " + l[7:]) if (l.startswith("BEH ff ") and i % 2) else l for i, l in enumerate(lines)]
             # keep the corpus at a size all 14 builds can run quickly: every k-th behaviour, seeded offset
             cap = 30000 if tier == "quick" else 400000
             if len(lines) > cap:
@@ -627,9 +636,12 @@ def check_crossbuild(prop, tier, replay):
 
     def run_config(c):
         name, cc, flags = c
-        bdir = vlib.build(name, progs, cc=cc, flags=flags, tag="x-" + name)
+        msan = "msan" in name
+        bdir = vlib.build(name, [q for q in progs if not (msan and q == "replay_class")], cc=cc, flags=flags, tag="x-" + name)
         res = {}
         for eng, (replayer, prefix, _) in C18_CORPUS.items():
+            if msan and eng == "class":
+                continue        # libstdc++ is not MSan-instrumented
             tdir = os.path.join(base, name); os.makedirs(tdir, exist_ok=True)
             tr = os.path.join(tdir, eng + ".transcript")
             env = _env(); env["UBSAN_OPTIONS"] = "print_stacktrace=0:halt_on_error=0"; env["ASAN_OPTIONS"] = "detect_leaks=0:exitcode=66:allocator_may_return_null=1"
@@ -638,7 +650,7 @@ def check_crossbuild(prop, tier, replay):
             summ = vlib.read_json("%s/%s.sum.json" % (tdir, eng))
             if summ is None:
                 raise Infra("replayer %s failed in build %s: %s" % (replayer, name, r.stderr[-800:]))
-            ub = len(re.findall(r"runtime error:", r.stderr))
+            ub = len(re.findall(r"runtime error:|MemorySanitizer:", r.stderr))
             ubk = sorted(set(re.findall(r"(\S+:\d+):\d+: runtime error: ([^\n]*)", r.stderr)))[:10]
             h = hashlib.sha256(open(tr, "rb").read()).hexdigest()
             res[eng] = {"sha256": h, "behaviours": summ["behaviours"], "calls": summ["calls"], "violations_any": summ["violations_own"] + summ["violations_other"],
@@ -651,7 +663,8 @@ def check_crossbuild(prop, tier, replay):
     nviol = 0; diffs = []; ub_notes = []
     for name, res in results.items():
         for eng, r in res.items():
-            if r["ub_reports"]:
+            if r["crashes"]:
+                r["sha256"] += "+crashes"       # a behaviour that kills one build is a difference
                 ub_notes.append({"build": name, "engine": eng, "reports": r["ub_reports"], "kinds": r["ub_kinds"]})
             if r["sha256"] != ref[eng]["sha256"]:
                 # first differing behaviour
